@@ -15,6 +15,10 @@ From WebP Require Import Gen.Kernels Lib.ZBits Lib.Res Spec.YUV Model.Yuv Spec.A
 From WebP Require Model.Container Proofs.Container_simple.
 From WebP Require Lib.Arr Model.LosslessLib Model.Lossless Proofs.C04_bits Proofs.C01_top Proofs.C11_lossless.
 From WebP Require Spec.Container Model.ReadImage Proofs.Container_bytes Proofs.C01_top Proofs.ReadImage_base Proofs.ReadImage_container Proofs.ReadImage_vp8l Proofs.ReadImage_lossless Proofs.ReadImage_lossy Proofs.ReadImage_stillspec Proofs.ReadImage_wrap Proofs.ReadImage_safe Proofs.ReadImage_frame Proofs.ReadImage_anim.
+From WebP Require Spec.VP8 Model.Vp8Decode Proofs.VP8_decode_main Proofs.VP8_decode_planes Proofs.VP8_decode_readimage.
+From WebP Require Spec.Container Spec.YUV Spec.VP8 Spec.Anim Model.AlphaBlend Model.Anim Model.ReadImage Model.Vp8Decode Proofs.C15_model Proofs.Container_bytes Proofs.C01_top Proofs.Anim_play
+  Proofs.ReadImage_base Proofs.ReadImage_container Proofs.ReadImage_lossy Proofs.ReadImage_wrap Proofs.ReadImage_safe Proofs.ReadImage_frame Proofs.ReadImage_anim
+  Proofs.VP8_decode_main Proofs.VP8_decode_planes Proofs.VP8_decode_readimage.
 Import ListNotations.
 Open Scope Z_scope.
 
@@ -126,3 +130,62 @@ Module RI.
   Proof. exact ReadImage_wrap.lossy_wrappings_agree. Qed.
 
 End RI.
+
+(* ---------------- lossy stills with the frame decoder instantiated: vp8 := Model.Vp8Decode.decode_frame (C05 / C11) ---------------- *)
+Module RIC.
+  Import Spec.Container Spec.YUV Model.ReadImage Proofs.ReadImage_base Proofs.ReadImage_container Proofs.ReadImage_lossy Proofs.ReadImage_wrap
+    Proofs.VP8_decode_main Proofs.VP8_decode_readimage.
+
+  (* no hypothesis about the frame decoder is left: the file is a well-formed lossy still whose key frame the reference decodes under the four
+     decidable side conditions of decode_hyps_b *)
+  Theorem read_image_lossy_closed :
+    forall (c : container) (payload : list Z) (w h : Z) (yp up vp px : list Z),
+           wf c = true -> anim c = false -> image_vp8 c = Some payload -> dims c = (w, h) ->
+           VP8.decode payload = Some (w, h, yp, up, vp) -> decode_hyps_b payload = true ->
+           lossy_pixels c w h yp up vp = Some px -> alph_ok_for c w h ->
+           exists dec : Container_bytes.M.decoder,
+             Container_bytes.M.new (serialize c) = Ok dec /\
+             (forall buf : list Z, len buf = buffer_size c -> read_image Vp8Decode.decode_frame dec buf = (Ok tt, Some px)) /\
+             (forall buf : list Z, len buf <> buffer_size c -> read_image Vp8Decode.decode_frame dec buf = (Err EImageTooLarge, Some buf)).
+  Proof. exact VP8_decode_readimage.read_image_lossy_closed. Qed.
+
+  (* C05 at file level: read_image returns exactly the pixels of Spec.Still.decode_still *)
+  Theorem read_image_equals_still_spec_closed :
+    forall (c : container) (payload : list Z) (w h : Z) (yp up vp : list Z) (w' h' : Z) (a : bool) (px : list Z),
+           wf c = true -> anim c = false -> image_vp8 c = Some payload -> dims c = (w, h) ->
+           VP8.decode payload = Some (w, h, yp, up, vp) -> decode_hyps_b payload = true ->
+           alph_ok_for c w h ->
+           SS.decode_still (serialize c) = Some (w', h', a, px) ->
+           (w', h', a) = (w, h, alpha c) /\
+           (exists dec : Container_bytes.M.decoder,
+              Container_bytes.M.new (serialize c) = Ok dec /\
+              Container_bytes.M.dimensions dec = (w', h') /\
+              Container_bytes.M.has_alpha dec = a /\
+              (forall buf : list Z, len buf = buffer_size c -> read_image Vp8Decode.decode_frame dec buf = (Ok tt, Some px)) /\
+              (forall buf : list Z, len buf <> buffer_size c -> read_image Vp8Decode.decode_frame dec buf = (Err EImageTooLarge, Some buf))).
+  Proof. exact VP8_decode_readimage.read_image_equals_still_spec_closed. Qed.
+
+  (* every container around the same key frame shows the same colours *)
+  Theorem lossy_wrappings_agree_closed :
+    forall (payload : list Z) (w h : Z) (yp up vp : list Z),
+           VP8.decode payload = Some (w, h, yp, up, vp) -> decode_hyps_b payload = true ->
+           forall (c : container) (px : list Z), wf c = true -> anim c = false -> image_vp8 c = Some payload -> dims c = (w, h) ->
+           lossy_pixels c w h yp up vp = Some px -> alph_ok_for c w h ->
+           (if alpha c then Still.drop_alpha px else px) = rgb_plane (Z.to_nat w) (Z.to_nat h) yp up vp /\
+           (exists dec : Container_bytes.M.decoder,
+              Container_bytes.M.new (serialize c) = Ok dec /\
+              (forall buf : list Z, len buf = buffer_size c -> read_image Vp8Decode.decode_frame dec buf = (Ok tt, Some px))).
+  Proof. exact VP8_decode_readimage.lossy_wrappings_agree_closed. Qed.
+
+  (* the frame decoder on a valid key frame: Ok and well-formed planes (the clause of vp8_safe for that payload) *)
+  Theorem vp8dec_safe_on_valid :
+    forall (payload : list Z) (w h : Z) (yp up vp : list Z),
+           Forall byte payload -> C15_model.len payload < 2 ^ 63 ->
+           VP8.decode payload = Some (w, h, yp, up, vp) -> decode_hyps_b payload = true ->
+           match Vp8Decode.decode_frame payload with
+           | Ok (w', h', yp', up', vp') => planes_ok w' h' yp' up' vp'
+           | Err _ => True
+           | Panic _ | OutOfFuel => False
+           end.
+  Proof. exact VP8_decode_readimage.vp8dec_safe_on_valid. Qed.
+End RIC.
